@@ -1,5 +1,5 @@
 """Registry: which stages decide which property (see DESIGN.md section 5)."""
-from checklib import PROPS, make_prop, ES, tlc_only_stage
+from checklib import PROPS, make_prop, ES, GS, tlc_only_stage
 
 COMMON_ASSUME = [
     "the TLA+ transcription of RFC 9535 (spec/JPSemantics.tla) is faithful; anchored by the RFC's example tables as ASSUMEs (spec/RFCExamples.tla), reproduced from memory",
@@ -40,3 +40,14 @@ PROPS["C14"] = make_prop("C14", [ES("C14", "C14", "nodes")],
 PROPS["C15"] = make_prop("C15", [ES("C15", "C01", "j"), ES("C15", "C04", "j"), ES("C15", "C05", "j"), ES("C15", "C10", "j")],
     "every behaviour executed on serde_json::Value and on the second Queryable implementation J (insertion-ordered objects, separate int/float variants); paths and values compared position by position; " + NT,
     COMMON_ASSUME + ["J (harness/src/j.rs) is a faithful implementation of the trait as documented"])
+
+GR = "distinct = distinct sentences; non-trivial = the recogniser gives a verdict (valid/invalid) rather than unscoped"
+PROPS["C06"] = make_prop("C06", [GS("C06", "C06", "accept")],
+    "every spelling (blank space at every S, both quote styles, every escape form, shorthand/bracket notation, redundant parentheses, number spellings) within a variation budget of the abstract queries of GrammarUniverse, derived by the grammar machine and judged valid by the recogniser, must be accepted by parse_json_path and by JsonPath::query; " + GR,
+    COMMON_ASSUME + ["RFC 9535 ABNF transcribed twice (generator Grammar.tla, recogniser JPParse.tla) and cross-checked by TLC"])
+PROPS["C07"] = make_prop("C07", [GS("C07", "C07", "reject,accept")],
+    "every single-character edit (delete, insert, replace over a 17..27 symbol alphabet, transpose) of the canonical spellings, plus ill-typed / out-of-range abstract queries; the recogniser decides validity; invalid ones must be rejected by parse_json_path and JsonPath::query, valid ones accepted; " + GR,
+    COMMON_ASSUME + ["strings the properties do not speak about (unknown function names, blanks inside singular-query brackets, huge number literals) are labelled unscoped and skipped"])
+PROPS["C13"] = make_prop("C13", [GS("C13", "C13", "order,accept")],
+    "all spellings within the variation budget of each abstract query, evaluated on three probe documents: each must return the specification's nodelist for the ABSTRACT query in order (so all spellings agree); spec-side invariant SpellingSame; " + GR,
+    COMMON_ASSUME)
